@@ -125,3 +125,33 @@ Theorem C14_indexed_endpoint_http_only :
   (standard (ie_binding e) = false -> ie_location e' = EmptyString /\ ie_response e' = None).
 Proof. exact indexed_endpoint_check_http_only. Qed.
 Print Assumptions C14_indexed_endpoint_http_only.
+
+(* the monitors evaluated on the implementation's outputs: sound for the
+   statements above, and always satisfied by the model's own outputs *)
+Theorem C14_escapers_meet_monitor :
+  forall s, escase_spec {| es_s := s; es_attr := attr_escape s; es_url := url_attr s; es_text := html_escape s |} = true.
+Proof. exact escapers_meet_spec. Qed.
+Print Assumptions C14_escapers_meet_monitor.
+
+Theorem C14_escaper_monitor_sound :
+  forall c, escase_spec c = true ->
+  contains_chr 34 (es_attr c) = false /\ contains_chr 60 (es_attr c) = false /\ contains_chr 62 (es_attr c) = false /\
+  contains_chr 39 (es_attr c) = false /\ contains_chr 0 (es_attr c) = false /\
+  decode_charrefs (es_attr c) = nul_to_fffd (es_s c).
+Proof. exact escase_spec_sound. Qed.
+Print Assumptions C14_escaper_monitor_sound.
+
+Theorem C14_location_meets_monitor :
+  forall b loc,
+  loccase_spec {| lc_binding := b; lc_loc := loc;
+                  lc_ok := is_ok (check_endpoint_location b loc);
+                  lc_out := match check_endpoint_location b loc with Ok l => l | _ => EmptyString end |} = true.
+Proof. exact check_location_meets_spec. Qed.
+Print Assumptions C14_location_meets_monitor.
+
+Theorem C14_location_monitor_sound :
+  forall c, loccase_spec c = true -> lc_ok c = true ->
+  (standard (lc_binding c) = true -> lc_out c = lc_loc c /\ http_only (lc_loc c) = true) /\
+  (standard (lc_binding c) = false -> lc_out c = EmptyString).
+Proof. exact loccase_spec_sound. Qed.
+Print Assumptions C14_location_monitor_sound.
